@@ -14,7 +14,8 @@ mkdir -p $S
 git -C /repo worktree remove --force $WT 2>/dev/null; rm -rf $WT
 git -C /repo worktree add -q --detach $WT HEAD || exit 2
 cp /repo/Cargo.lock $WT/
-DEMO=$(ls $C/*.rs 2>/dev/null | head -1)
+DEMO=$(ls $C/*.rs 2>/dev/null | grep -v unit_test_snippet | head -1)
+if [ -z "$DEMO" ] && [ -f $C/demo.py ]; then git -C /repo worktree remove --force $WT; exec /verif/tools/seed_confirm_py.sh "$C" "$NAME"; fi
 [ -n "$DEMO" ] || { echo "no rust demo in $C; confirm by hand" | tee -a $LOG; exit 2; }
 CRATE=$(python3 - "$C" <<'PY'
 import json,re,sys
